@@ -35,7 +35,7 @@ Idle == [pc |-> "idle"]
 
 \* the case description in the model's vocabulary
 RECURSIVE ToDiskBy(_, _)
-ToDiskBy(n, real) == CASE n.k = "file" -> DF(IF real THEN n.d ELSE n.s, n.x, 0)
+ToDiskBy(n, real) == CASE n.k = "file" -> DF(IF real THEN n.d ELSE n.s, n.x, V0)
                        [] n.k = "fifo" -> U
                        [] n.k = "dir" -> D([m \in DOMAIN n.c |-> ToDiskBy(n.c[m], real)])
                        [] OTHER -> n
@@ -58,6 +58,7 @@ WellFormed(r) ==
   /\ Len(r.plan) >= 1
   \* edits are on pairwise incomparable paths
   /\ \A e1, e2 \in Rng(r.in.edits) : e1 # e2 => ~Comparable(e1.path, e2.path)
+  /\ \A e \in Rng(r.in.edits) : e.op \in FileOps \cup LinkOps \cup DirOps \cup {"stale", "newchild", "createfile", "createlink", "createdir"}
   /\ r.pre.k # "walkerr" /\ r.post.k # "walkerr"
 
 RecFails(i, r) ==
@@ -72,18 +73,11 @@ RecFails(i, r) ==
 
 \* ---------------------------------------------------------- conformance
 \* an external edit of the driver in the model's terms
-EditedNode(op, n) ==
-  CASE op \in {"content", "mtime", "size", "id"} -> DF("edited", n.x, 1)
-    [] op = "mode" -> DF(n.d, n.x, 1)
-    [] op = "stale" -> DF("stale", n.x, 0)
-    [] op \in {"retarget", "tolink", "createlink"} -> L("retargeted")
-    [] op \in {"newchild", "tofile", "createfile"} -> DF("edited", FALSE, 1)
-    [] op \in {"todir", "createdir"} -> D(<<>>)
-    [] OTHER -> Nil    \* delete
 ApplyEdit(t, e) ==
-  [t EXCEPT !.disk = SetAt(t.disk, e.path, EditedNode(e.op, At(t.disk, e.path))),
-            !.edited = @ \cup {e.path},
-            !.cache = IF e.op = "stale" THEN [@ EXCEPT ![e.path] = [v |-> 0, d |-> "stale"]] ELSE @]
+  IF e.op = "stale"
+  THEN [t EXCEPT !.disk = SetAt(t.disk, e.path, DF("stale", At(t.disk, e.path).x, V0)),
+                 !.edited = @ \cup {e.path}, !.cache = [@ EXCEPT ![e.path] = [v |-> V0, d |-> "stale"]]]
+  ELSE [t EXCEPT !.disk = SetAt(t.disk, e.path, EditEffect(e.op, At(t.disk, e.path))), !.edited = @ \cup {e.path}]
 RECURSIVE ApplyEdits(_, _)
 ApplyEdits(t, es) == IF es = <<>> THEN t ELSE ApplyEdits(ApplyEdit(t, Head(es)), Tail(es))
 
